@@ -234,3 +234,73 @@ func init() {
 	register(&Scenario{Prop: "C09", Name: "c09/waves-L8", Quick: []Bound{}, Thorough: []Bound{{0, 0}, {1, 0}}, Body: c09Waves(8, sysModes[:1]), BudgetT: 200})
 	register(&Scenario{Prop: "C09", Name: "c09/2streams", Quick: []Bound{{1, 0}}, Thorough: []Bound{{2, 0}}, Body: c09Body(2, sysModes), BudgetQ: 25})
 }
+
+// deep backlogs: the receiver consumes k messages, then falls behind until b messages are
+// unread at once (on the server while the handler is held, then on the client), then catches up.
+// Optionally every third message is empty (a BYTES value of length 0 is a legal message).
+func c09Backlog(modes []sysMode) func(x *X) {
+	return func(x *X) {
+		mode := modes[x.Choose(len(modes))]
+		k := x.Choose(10)
+		b := []int{9, 10, 17, 20}[x.Choose(4)]
+		withEmpty := x.Choose(2) == 1
+		cliDio := x.Choose(2) == 1
+		s := newSys(mode, srvOpts{bufSize: 64}, cliOpts{bufSize: 64, directIO: cliDio})
+		st, err := s.conn.NewStream("StreamSvc.Push")
+		if err != nil {
+			x.Fail("C09/open-failed/backlog", "NewStream: %v", err)
+			return
+		}
+		var want, got [][]byte
+		n := 0
+		write := func() {
+			msg := streamMsg(0x31, n%7)
+			msg[1] = byte(n) // every message distinct
+			if withEmpty && n%3 == 1 {
+				msg = []byte{}
+			}
+			n++
+			if e := st.WriteMessage(&msg); e != nil {
+				x.Fail("C09/write-failed/backlog", "WriteMessage: %v", e)
+			}
+			want = append(want, transform(msg))
+		}
+		read := func() bool {
+			var m []byte
+			if e := st.ReadMessage(nil, &m); e != nil {
+				x.Fail("C09/read-failed/backlog", "ReadMessage: %v", e)
+				return false
+			}
+			got = append(got, append([]byte(nil), m...))
+			return true
+		}
+		for i := 0; i < k; i++ {
+			write()
+			if !read() {
+				return
+			}
+		}
+		s.w.streamHold = true
+		for i := 0; i < b; i++ {
+			write()
+		}
+		vs.Quiesce() // b-1 messages wait in the server-side queue behind the held handler
+		s.w.streamHold = false
+		vs.Quiesce() // b echoes wait in the client-side queue
+		for len(got) < len(want) {
+			if !read() {
+				break
+			}
+		}
+		if fmt.Sprintf("%x", got) != fmt.Sprintf("%x", want) {
+			x.Fail("C09/client-sequence/backlog", "%d messages consumed one by one, then %d piled up (empty messages: %v): the client read %x, expected %x", k, b, withEmpty, got, want)
+		}
+		st.Close()
+		x.Outcome("%s k=%d b=%d empty=%v dio=%v", mode.name, k, b, withEmpty, cliDio)
+		s.finish()
+	}
+}
+
+func init() {
+	register(&Scenario{Prop: "C09", Name: "c09/backlog", Quick: []Bound{{0, 0}}, Thorough: []Bound{{1, 0}, {2, 0}}, Body: c09Backlog([]sysMode{sysModes[0], sysModes[3]}), BudgetQ: 20, MaxSteps: 100000})
+}
